@@ -576,7 +576,7 @@ func (in *interp) call(fr *frame, e *Expr) val {
 
 // Validate checks the structural rules every generated program obeys: jump levels fit the
 // enclosing loops/switches of the same function body, `return`/`static` only inside functions,
-// no statement writes the counter (or key) of a loop it is nested in.
+// no statement writes the counter of a for/while/do-while loop it is nested in (termination).
 func Validate(p *Program) error {
 	for _, f := range p.Funcs {
 		if err := validateBlock(f.Body, nil, nil, true); err != nil {
@@ -626,15 +626,18 @@ func validateBlock(ss []*Stmt, ctx []string, counters []string, inFunc bool) err
 				return err
 			}
 		case SLoop:
-			if protected(s.Var) || (s.Key != "" && protected(s.Key)) {
-				return fmt.Errorf("loop reuses counter $%s", s.Var)
+			if s.Loop != LFor || !s.NoInit {
+				// (a `for (; $v <= N; ..)` without init only ever increases $v: harmless)
+				if protected(s.Var) || (s.Key != "" && protected(s.Key)) {
+					return fmt.Errorf("loop reuses counter $%s", s.Var)
+				}
 			}
 			if s.N < 1 && s.Loop == LDoWhile {
 				return errors.New("do-while needs N >= 1")
 			}
-			cs := append(append([]string{}, counters...), s.Var)
-			if s.Key != "" {
-				cs = append(cs, s.Key)
+			cs := append([]string{}, counters...)
+			if s.Loop != LForeach { // a foreach iterates over a snapshot: writing its variables cannot prolong it
+				cs = append(cs, s.Var)
 			}
 			if err := validateBlock(s.Body, append(append([]string{}, ctx...), "loop"), cs, inFunc); err != nil {
 				return err
